@@ -12,6 +12,7 @@ func init() {
 			return []runner.Job{
 				{Harness: "c16.encode", Mode: "plain", Shards: 16},
 				{Harness: "c16.decode", Mode: "plain", Shards: 16},
+				{Harness: "c16.stream", Mode: "plain", Shards: 16},
 			}
 		},
 	})
